@@ -9,7 +9,7 @@ import os, json, re
 from framework import Check, Case
 from jqlib import run_case, simple_run, RunRes, BUILD, VERIF, run_impl
 import genprog
-from checklib import (ANY, abnormal, run_cli, Scratch, pmap, prescreen, tokens, LEGAL)
+from checklib import (ANY, abnormal, run_cli, Scratch, pmap, prescreen, tokens, LEGAL, light_enough)
 
 CTLS = ["next", "exit", "return", "return 7", "break", "continue"]
 
@@ -318,6 +318,131 @@ def diag_cases(rng, quick):
     return out
 
 
+# ---- values that contain themselves, as operands of every operation.  A traversal without a cycle check does not end in an
+# error value but in the death of the process (Go stack exhaustion), so these cases are first run in small isolated batches.
+# (name, setup statements, X, Y): X and Y are two DISTINCT values of the same cyclic shape
+def cyc_ring(n, mixed):
+    st = []
+    for pre in "cd":
+        for i in range(n):
+            st.append("%s%d = %s" % (pre, i, "{n: 0}" if (mixed and i % 2) else "[0]"))
+        for i in range(n):
+            nxt = "%s%d" % (pre, (i + 1) % n)
+            st.append(("%s%d.n = %s" if (mixed and i % 2) else "%s%d[0] = %s") % (pre, i, nxt))
+    return "\n ".join(st)
+
+
+CYC_BUILD = [
+    ("self-array", "a = [1]\n a[0] = a\n b = [1]\n b[0] = b", "a", "b"),
+    ("self-array-from-empty", "a = []\n a[0] = a\n b = []\n b[0] = b", "a", "b"),
+    ("self-array-among-scalars", "a = [1, \"s\", 0, null]\n a[2] = a\n b = [1, \"s\", 0, null]\n b[2] = b", "a", "b"),
+    ("self-array-twice", "a = [0, 0]\n a[0] = a\n a[1] = a\n b = [0, 0]\n b[0] = b\n b[1] = b", "a", "b"),
+    ("mutual-arrays", "a = [0]\n b = [0]\n a[0] = b\n b[0] = a", "a", "b"),
+    ("mutual-arrays-two-pairs", "a = [0]\n a2 = [0]\n a[0] = a2\n a2[0] = a\n b = [0]\n b2 = [0]\n b[0] = b2\n b2[0] = b", "a", "b"),
+    ("two-levels", "a = [[0]]\n a[0][0] = a\n b = [[0]]\n b[0][0] = b", "a", "b"),
+    ("self-object", "a = {}\n a.me = a\n b = {}\n b.me = b", "a", "b"),
+    ("self-object-two-members", "a = {k: 1}\n a.me = a\n a.l = a\n b = {k: 1}\n b.me = b\n b.l = b", "a", "b"),
+    ("mutual-objects", "a = {}\n b = {}\n a.me = b\n b.me = a", "a", "b"),
+    ("object-in-array-in-object", "a = {}\n l = [0]\n a.l = l\n l[0] = a\n b = {}\n m = [0]\n b.l = m\n m[0] = b", "a", "b"),
+    ("array-in-object-in-array", "o = {}\n a = [0]\n o.me = a\n a[0] = o\n p = {}\n b = [0]\n p.me = b\n b[0] = p", "a", "b"),
+    ("cycle-below-the-top", "c = [1]\n c[0] = c\n d = [1]\n d[0] = d\n a = [1, c]\n b = [1, d]", "a", "b"),
+    ("cycle-in-a-member", "c = {}\n c.me = c\n d = {}\n d.me = d\n a = {me: c, k: 2}\n b = {me: d, k: 2}", "a", "b"),
+    ("ring-of-3", cyc_ring(3, False), "c0", "d0"),
+    ("ring-of-4-mixed", cyc_ring(4, True), "c0", "d0"),
+    ("ring-of-12", cyc_ring(12, False), "c0", "d0"),
+    ("ring-of-40-mixed", cyc_ring(40, True), "c0", "d0"),
+    ("ring-entered-at-two-places", cyc_ring(5, True), "c0", "c2"),
+]
+CYC_FUNCS = ("function idf(p) { return p }\nfunction eqf(p, q) { return p == q }\n"
+             "function walk(p, n) { if (n == 0) { return p }\n return walk(p[0], n - 1) }\n")
+CYC_OPS = [
+    "print X == Y", "print X != Y", "print X < Y", "print X <= Y", "print X > Y", "print X >= Y",
+    "print X == X", "print X != X", "print X < X", "print X >= X",
+    "print X == 1", "print 1 != X", "print X == null", "print null < X", "print X == \"s\"", "print X == u", "print u != X", "print X == [1]", "print {} != X",
+    "print [Y].contains(X)", "print X.contains(Y)", "print X.contains(X)", "print [1, X, Y].contains(Y)", "print [[Y]].contains([X])", "print [1, 2].contains(X)",
+    "print [X, Y].sort()", "print X.sort()", "print [Y, 1, X, \"s\"].sort()", "z = [X, Y, X]\n z.sort()\n print z.length()",
+    "print match (X) { 1 => \"one\", \"s\" => \"str\", null => \"null\", _ => \"other\" }", "print match (X) { [q] => q == Y, _ => \"other\" }",
+    "print match (X) { [[[q]]] => 1, [q] => 2, _ => 3 }", "print match ([X, Y]) { [p, q] => p == q, _ => 0 }", "print match (1) { 1 => X } == Y",
+    "print match (X) { q => q } != Y", "match (X) { q => { print q == Y } }", "print match (X) { [1] => 1, [[1]] => 2, [null] => 3, _ => 4 }",
+    "print X", "print X, Y", "print [X, Y], {k: X}", "printf(\"%v %v\\n\", X, Y)", "printf(\"%s\\n\", X)", "printf(\"%20v|%-20v|\\n\", X, Y)", "printf(\"%f\\n\", X)",
+    "printf(X)", "printf(\"%v\\n\")",
+    "print json(X)", "print json([1, X])", "print json({k: [Y]})", "s = json(X)\n print \"after\"",
+    "print X.pluck(\"me\")", "print X.pluck(\"me\", \"l\", \"n\")", "print {k: X, j: Y}.pluck(\"k\")", "print X.pluck(X)", "print {k: 1}.pluck(X)",
+    "for (v in X) { print v }", "for (k, v in X) { print k, v == Y }", "for (v in X) { for (w in v) { print w != X } }", "for (v in [X, Y]) { print v == X }",
+    "z = [1, 2]\n print z[X]", "z = [1, 2]\n z[X] = 1\n print z", "q = {}\n q[X] = 1\n print q", "print X[X]", "X[Y] = 1\n print X", "print X[0] == X", "print X[0][0] != Y",
+    "print X.me == X", "print X[0] == Y[0]", "print X.me.me != Y.me", "print X.n == Y.n",
+    "print idf(X) == Y", "print eqf(X, Y)", "print eqf(X, X)", "print walk(X, 7) == walk(Y, 7)", "print walk(X, 3) != X", "print num(X)", "print X.length(), Y.length()",
+    "print X + \"\"", "print \"\" + X + Y", "print X + Y", "print X - Y", "print X ~ \"a\"", "print \"a\" ~ X", "print -X", "print !X, !!Y", "print X && Y", "print (X || Y) == X",
+    "print X is array, X is object",
+    "X.push(Y)\n print X", "X.push(X)\n print X == Y", "print \"a,b\".split(X)", "print X.pop() == Y", "print X.popfirst() != X",
+    "c = X\n c[1] = 5\n print c == X", "e = [X]\n f = [Y]\n print e == f", "e = {k: X}\n f = {k: Y}\n print e != f", "x1 = X\n x2 = X\n print x1 == x2",
+    "$ = X", "$ = [X, Y]\n print $ == X", "$ = X\n print $ == Y", "print $ == X",
+    "if (X == Y) { print \"eq\" } else { print \"ne\" }", "while (X != Y) { print \"loop\"\n break }", "print X == Y || true", "print true || X == Y",
+    "print (X == Y) == (Y == X)", "n = 0\n for (i = 0; i < 3; i++) { if (X != Y) { n++ } }\n print n",
+]
+# (template with SETUP, OP; inputs)
+CYC_CTX = [
+    ("BEGIN { print \"start\"\n SETUP\n OP\n print \"done\" }", []),
+    ("BEGIN { print \"start\"\n SETUP\n OP\n print \"done\" }", []),
+    ("BEGIN { SETUP }\n{ print \"start\"\n OP\n print \"done\" }\nEND { print \"end\" }", ["[1, 2]"]),
+    ("{ SETUP\n OP }", ["{\"k\": 1}"]),
+    ("BEGIN { SETUP }\nEND { print \"start\"\n OP\n print \"done\" }", ["[1]"]),
+    ("function run() { SETUP\n OP\n return 1 }\nBEGINFILE { print run() }", ["[1]"]),
+    ("ENDFILE { SETUP\n OP }", ["[1]"]),
+]
+# the cycle made of the input itself: every record contains itself; the previous record is the second value
+CYC_INPUT = "{ $.me = $\n a = $\n if (prev is object) { b = prev\n OP }\n prev = $ }"
+CYC_PATTERN = ["BEGIN { SETUP }\nX == Y { print \"hit\" }\n{ print \"second\" }", "BEGIN { SETUP }\n!(X != Y) { print \"hit\" }",
+               "BEGIN { SETUP }\n[Y].contains(X) { print \"hit\" }", "BEGIN { SETUP }\nmatch (X) { 1 => 1, _ => 0 } { print \"hit\" }"]
+
+
+def cyclic_cases(rng, quick):
+    out = []
+
+    def add(ctx, inputs, b, op, sels=()):
+        name, setup, x, y = b
+        body = op.replace("X", x).replace("Y", y)
+        prog = CYC_FUNCS + ctx.replace("SETUP", setup).replace("OP", body)
+        out.append(("cyclic", prog, list(inputs), list(sels)))
+
+    for op in CYC_OPS:
+        for b in (rng.sample(CYC_BUILD, 3) if quick else CYC_BUILD):
+            ctx, inputs = CYC_CTX[0] if rng.random() < 0.6 else rng.choice(CYC_CTX)
+            add(ctx, inputs, b, op)
+    for b in CYC_BUILD:
+        for op in (rng.sample(CYC_OPS, 6) if quick else []):
+            ctx, inputs = rng.choice(CYC_CTX)
+            add(ctx, inputs, b, op)
+        for pat in CYC_PATTERN:
+            name, setup, x, y = b
+            out.append(("cyclic", pat.replace("SETUP", setup).replace("X", x).replace("Y", y), ["[1, 2]"], []))
+        # -o of a cyclic root, a selector that builds nothing cyclic on a root that is
+        out.append(("cyclic", "{ %s\n $ = %s }" % (b[1], b[2]), ["0"], []))
+    for op in (rng.sample(CYC_OPS, 40) if quick else CYC_OPS):
+        body = op.replace("X", "a").replace("Y", "b")
+        out.append(("cyclic", CYC_FUNCS + CYC_INPUT.replace("OP", body), ["[{\"n\": 1}, {\"n\": 1}, {\"n\": 2}]"], []))
+    return out
+
+
+def isolated_prescreen(lines_by_id, group=6, stop_after=10):
+    """runs the cases in small batches, a few at a time; stops once `stop_after` of them ended abnormally.
+    Returns {id: RunRes} for the cases that were run."""
+    ids = list(lines_by_id)
+    groups = [ids[i:i + group] for i in range(0, len(ids), group)]
+    res, bad = {}, 0
+    wave = 12
+    for w in range(0, len(groups), wave):
+        part = groups[w:w + wave]
+        for g, r in zip(part, pmap(lambda g: run_impl([lines_by_id[i] for i in g], timeout=120, jobs=1), part, jobs=6)):
+            for i in g:
+                res[i] = RunRes(r.get(i, []))
+                if abnormal(res[i]):
+                    bad += 1
+        if bad >= stop_after:
+            break
+    return res
+
+
 def planted_programs():
     """The finite family (a): every control statement x wrapper x rule context, every expression form x context."""
     out = []
@@ -426,7 +551,10 @@ class C01(Check):
             "selectors; recursion into the call-depth limit (16 runaway shapes and 8 finite shapes ending within two frames of the limit x 17 ways of "
             "entering with 0-5 frames below, limit-2..limit+2 syntactically nested match expressions as program, pattern, function and selector); "
             "index stress (16 receiver kinds x 39 index values incl. negative, past the end, fractional, 1e18, 2^63, NaN, non-numbers x 17 "
-            "read/store/++/+=/nested forms, and $-paths and selectors on 9 input documents); (b) random grammatical programs; (c) token-level mutants and truncations of (a),(b) and the repository seeds; "
+            "read/store/++/+=/nested forms, and $-paths and selectors on 9 input documents); values that contain themselves (19 shapes: self-containing "
+            "and mutually containing arrays and objects, mixed, rings of 3-40, cycles below the top, records made cyclic by $.me = $) as operands of "
+            "every operation (comparisons with another cyclic value, themselves and scalars, contains, sort, match subjects, print, printf, json, -o, "
+            "pluck, for-in, index, argument, arithmetic, ~, push/pop), first run in isolated batches because a missing cycle check kills the process; (b) random grammatical programs; (c) token-level mutants and truncations of (a),(b) and the repository seeds; "
             "(d) random bytes and the repository's test/fuzz seeds; inputs valid/JSONL/malformed/empty, 0-2 selectors. "
             "non-trivial = the program text is not empty and (it parses or at least one rule or selector ran)")
 
@@ -504,11 +632,31 @@ class C01(Check):
             info[cid] = (tag, prog, inputs, sels)
         # output-heavy runs are checked on the implementation only (see checklib.light_enough)
         pre, light = prescreen(lines)
+        # cyclic operands: isolated batches first (a missing cycle check kills the process); what ends abnormally there is
+        # reported from that run (extra()), the rest joins the other cases
+        self._isolated_bad = []
+        cyc_lines = {}
+        for tag, prog, inputs, sels in cyclic_cases(rng, quick):
+            cid = "y%d" % len(cyc_lines)
+            cyc_lines[cid] = mk_line(cid, prog, inputs, sels)
+            info[cid] = (tag, prog, inputs, sels)
+        iso = isolated_prescreen(cyc_lines)
+        self._cyclic_not_run = len(cyc_lines) - len(iso)
+        for cid, r in iso.items():
+            lines[cid] = cyc_lines[cid]
+            pre[cid] = r
+            if light_enough(r):
+                light.add(cid)
         cases = []
         for cid, line in lines.items():
             tag, prog, inputs, sels = info[cid]
             meta = {"prog": prog, "inputs": inputs, "selectors": sels, "stream": tag}
             r = pre[cid]
+            if tag == "cyclic" and abnormal(r):
+                c = Case(cid, None, dict(meta, line=line, isolated_run=abnormal(r)), True, (tag,))
+                self._isolated_bad.append((c, abnormal(r)))
+                cases.append(c)
+                continue
             nontrivial = bool(prog.strip()) and (r.outcome != "syntax" or r.iolog != "-" or len(tokens(prog)) > 1)
             c = Case(cid, line, meta, nontrivial, (tag,))
             # (a million-element auto-fill is a single step for the implementation, not for the model's lists)
@@ -597,6 +745,34 @@ class C01(Check):
         viol += [r for r in results if isinstance(r, tuple)]
         stats["cli_runs"] = len(jobs)
         stats["cli_timeouts"] = sum(1 for r in results if r == "timeout")
+        # (2b) values that contain themselves: what died in the isolated batches, and a sample through the binary
+        for c, why in getattr(self, "_isolated_bad", [])[:5]:
+            viol.append((c, "cyclic value as an operand: " + why))
+        stats["cyclic_cases_not_run_after_10_failures"] = getattr(self, "_cyclic_not_run", 0)
+        cyc = [c for c in ctx["cases"] if "cyclic" in c.tags and "prog" in c.meta]
+        import random as _random
+        r2 = _random.Random(len(ctx["cases"]))
+        r2.shuffle(cyc)
+        cyc = cyc[:90 if tier == "quick" else 1500]
+        with Scratch() as sc:
+            def one_cyc(c):
+                args = ["-f", sc.file(enc(c.meta["prog"]), ".jqawk")]
+                if c.meta["prog"].startswith("{ ") and c.meta["inputs"] == ["0"]:
+                    args = ["-o", "-"] + args
+                res = run_cli(args + [sc.file(enc(t), ".json") for t in c.meta["inputs"]], b"", timeout=60)
+                why = res.why_bad()
+                if why:
+                    meta = dict(c.meta, stderr=res.err[:300].decode("utf-8", "replace"), exit_status=res.rc)
+                    meta.pop("line", None)
+                    return (Case(c.id + "-cli", None, meta, True, c.tags), "cyclic value as an operand, jqawk binary: " + why)
+                return None
+            cres = []
+            for w in range(0, len(cyc), 30):
+                cres += [r for r in pmap(one_cyc, cyc[w:w + 30], jobs=6) if r]
+                if len(cres) >= 5:
+                    break
+        viol += cres[:5]
+        stats["cyclic_cli_runs"] = len(cyc)
         # (3) fixed CLI probes: -o with nothing processed (several ways), selectors that exit / signal
         probes = [
             (["-o", "-", "{}"], b""), (["-o", "-", "BEGIN { exit }"], b"[1]"), (["-o", "-", "{ exit }"], b""), (["-o", "-", ""], b""),
